@@ -15,14 +15,14 @@ REQUIRED_THEOREMS = ["Gv.Props.C01." + n for n in [
     "three_frames_same_count_iff",
     # names stay pairwise distinct unless the caller edits names
     "step_names_nodup", "run_names_nodup",
-    # refinement: Go-shaped container = plain list reference model, all 30 operations, all histories
+    # refinement: Go-shaped container = plain list reference model, all 31 operations, all histories
     "step_refines", "run_refines", "compress_empty_unchanged", "good_of_empty_bag", "good_of_empty_align", "obs_byName", "obs_idByName", "obs_length"]]
 LEVEL_TEXT = ("Lean theorems, all by induction over operation histories of any length and for arbitrary arguments: "
-              "(1) refinement `step_refines` / `run_refines`: for each of the 30 operations of the history language (add under the "
+              "(1) refinement `step_refines` / `run_refines`: for each of the 31 operations of the history language (add under the "
               "three duplicate-name policies, ignore, clear, append, concat, rename, appendId, cleanNames, trimNames, trimAuto, sort, "
               "permute=ShuffleSequences, filter, dedup, rmSeqs/RemoveGapSeqs, translate, clone, sample, toUpper, toLower, replace, "
               "setChar, trimSeqs, autoAlpha, revcomp=ReverseComplement, replaceChar, rmGapSites=RemoveGapSites, compress=Compress, unalign=Unalign - after which the history continues on the NEW plain sequence set it returns, "
-              "renameRe=RenameRegexp with the values of the regular-expression substitution supplied per row), whenever the plain list-of-(name,sequence) reference model specifies the outcome, the "
+              "renameRe=RenameRegexp with the values of the regular-expression substitution supplied per row, setAlpha=SetAlphabet), whenever the plain list-of-(name,sequence) reference model specifies the outcome, the "
               "implementation-shaped model (ordered rows with pointer ids + separate name index + allocation counter + cached "
               "alignment length) yields exactly that content (names, row order, residues, policy, alphabet, kind) and that status, and "
               "the strong invariant (index exact and pointing to the first row of each name, rectangular, alphabet never BOTH) holds "
@@ -42,7 +42,7 @@ LEVEL_NOTE = ("Trusted: Lean kernel; harness/oracle/driver; the hand-written mod
               "implementation on generated histories only; regexp (CleanNames is modelled directly; for RenameRegexp the harness "
               "evaluates Go's regexp on every name before the call and hands the values to the model in the step's status), fmt, "
               "sort.SliceStable, math/rand (replica) are external.")
-TECHNIQUE = "Lean 4 proof (refinement of the Go-shaped container to a plain-list reference model for all 30 operations, representation / rectangularity / distinct-names invariants, all by induction over histories) + differential correspondence"
+TECHNIQUE = "Lean 4 proof (refinement of the Go-shaped container to a plain-list reference model for all 31 operations, representation / rectangularity / distinct-names invariants, all by induction over histories) + differential correspondence"
 RULE = ("random histories of 1..12 (quick) / 1..40 (thorough) operations over alignments (0..5 rows x 0..8 columns) and "
         "sequence sets with ragged lengths, duplicate names, special characters in names, all three duplicate-name policies, "
         "boundary arguments; stratum around Unalign / RenameRegexp (empty object, one row, all-gap rows, names made equal before "
@@ -58,9 +58,9 @@ PARTIAL = ["the refinement theorem claims the outcome of a step only where the r
            "ShuffleSequences / Sample are modelled with their permutation supplied (Op.permute / Op.sample; the theorems assume it is a "
            "genuine permutation of the positions, `OpWF`/`OpWFR`); in the correspondence the oracle resolves it with the Go math/rand "
            "replica of C10 (that the replica's shuffle is a permutation for every seed is C10.shuffle_every_seed)",
-           "the history language (Lean `Op`, oracle decoder, generator) has 30 operations (ReverseComplement, ReplaceChar, "
+           "the history language (Lean `Op`, oracle decoder, generator) has 31 operations (ReverseComplement, ReplaceChar, "
            "RemoveGapSites and Compress through the C06 / C12 / C13 models; Unalign, whose result replaces the current object; "
-           "RenameRegexp). RenameRegexp is modelled from the point where the regular expression has been evaluated: `Op.renameRe ok "
+           "RenameRegexp; SetAlphabet). RenameRegexp is modelled from the point where the regular expression has been evaluated: `Op.renameRe ok "
            "names` carries whether it compiled and the value of ReplaceAllString for every row (Go's regexp is external); the model "
            "covers what the method does with those names - in-place rename, name map in row order, rebuildIndex, collisions kept. "
            "NewSeqBag ends the process for an alphabet other than the three it knows: the model answers `EXIT` and the reference "
@@ -169,7 +169,7 @@ def gen_hist(rng, maxops):
         elif k < 0.85:
             ops.append("clone")
         elif k < 0.865:
-            ops.append(rng.choice(["toupper", "tolower", "autoalpha"]))
+            ops.append(rng.choice(["toupper", "tolower", "autoalpha", "setalpha:%d" % rng.choice([0, 1, 1, 2, 3, -1, 7])]))
             changing += 1
         elif k < 0.875:
             ops.append("shuffle:%d" % rng.randint(0, 10 ** 6))
@@ -257,7 +257,7 @@ def gen_columns(rng):
             "revcomp", "compress", "compress", "rmgapsites:%s:%d" % (rng.choice(["0", "1", "1/2", "1/3"]), rng.randint(0, 1)),
             "replacechar:%s:%d:%s" % (pct(rng.choice(pool + ["zz"])), rng.randint(-1, L), rng.choice("ACGT-Nn*")),
             "clear", "add:%s:%s" % (pct(rng.choice(pool)), rseq(rng, alpha, rng.choice([L, L, 1, 2]))), "toupper", "sort",
-            "dedup:0", "filter:0:100", "trimseqs:1:%d" % rng.randint(0, 1), "autoalpha"]))
+            "dedup:0", "filter:0:100", "trimseqs:1:%d" % rng.randint(0, 1), "autoalpha", "setalpha:%d" % rng.choice([0, 1, 1, 2])]))
     return Case("hist", ["A", alpha_id, prow(rows), ";".join(ops)], True, "hist-columns")
 
 
@@ -305,7 +305,7 @@ def gen_unalign_rename(rng):
                 "replacechar:%s:%d:%s" % (pct(rng.choice(pool + ["X"])), rng.randint(0, max(L, 1)), rng.choice("ACGT-")),
                 "setchar:%d:%d:N" % (rng.randint(0, 3), rng.randint(0, max(L, 1))), "trimseqs:1:0", "compress", "rmgapsites:0:0",
                 "rmgapseqs:1:0", "translate:0:0", "revcomp", "ignore:%d" % rng.randint(0, 2), "shuffle:%d" % rng.randint(0, 999),
-                "sample:%d:%d" % (rng.randint(1, 3), rng.randint(0, 999)), "autoalpha",
+                "sample:%d:%d" % (rng.randint(1, 3), rng.randint(0, 999)), "autoalpha", "setalpha:%d" % rng.choice([0, 1, 2, 3]),
                 "rename:" + pct(rng.choice(pool)) + "/" + pct(rng.choice(pool))]))
     return Case("hist", [kind, alpha_id, prow(rows), ";".join(ops)], True, "hist-unalign-rename-" + shape)
 
